@@ -162,7 +162,7 @@ def run_entry(prog, entry, loop_bound, max_paths, prefixes=None, time_budget=Non
         if res.kind == "infeasible":
             return
         if res.kind == "untranslatable":
-            gap(res.err[0])
+            gap("%s @ %s" % (res.err[0], str(res.err[1])[:220]))
             return
         if res.kind == "bound":
             gap("bound: %s" % (res.err[0],))
